@@ -674,6 +674,10 @@ def case_area(ctx, rng, T, cls, latlon, shape, nontriv, glob=False):
             ctx.count("area:after-upstream_area:" + pre)
         err, val = call(lambda: flw.area)
     else:
+        if rng.random() < 0.5:
+            # the same grid asked for in another unit first (module-level function: the answer depends on the arguments only)
+            call(gis.area_grid, T, shape, latlon, rng.choice(["km2", "ha", "m2", "cell"]))
+            ctx.count("area:area_grid-after-other-unit")
         err, val = call(gis.area_grid, T, shape, latlon, unit)
     ctx.count("area:" + ("geo" if latlon else "proj") + ":" + unit + (":global" if glob else ""))
     if err is None:
